@@ -1,6 +1,5 @@
 //! C14: the front end is total. Fault descriptors (from MC_TokenFaults) applied to seed modules; every mutated text runs
 //! through tokenizer -> parser -> resolver -> Rust model -> protobuf model under a watchdog.
-use crate::lexer::UNCLOSED;
 use crate::sandbox::Progress;
 use crate::util::*;
 use asn1rs_model::parse::{Token, Tokenizer};
@@ -71,7 +70,9 @@ fn front_end(text: &str) -> Result<Outcome, String> {
                 let msg = format!("{}", e);
                 match e.token() {
                     None => {
-                        if !(msg.contains("Unexpected end of stream") || msg.contains("missing the module name")) {
+                        // (compared as values, not by their message text)
+                        use asn1rs_model::parse::Error as PErr;
+                        if !(e == PErr::unexpected_end_of_stream() || e == PErr::missing_module_name()) {
                             return Err(format!("parse error without a token: {}", msg));
                         }
                     }
@@ -101,9 +102,9 @@ fn front_end(text: &str) -> Result<Outcome, String> {
     match r {
         Ok(x) => x,
         Err(p) => {
-            if p.contains(UNCLOSED) && crate::lexer::unterminated(text) {
+            if crate::lexer::is_comment_panic(&p) && crate::lexer::unterminated(text) {
                 Ok(Outcome::ParseErr("documented panic: unclosed comment".into()))
-            } else if p.contains(UNCLOSED) {
+            } else if crate::lexer::is_comment_panic(&p) {
                 Err(format!("the panic documented for an unterminated block comment on a text whose comments are all terminated (Lexer!Unterminated is FALSE): {}", p))
             } else {
                 Err(format!("panic: {}", p))
